@@ -224,7 +224,14 @@ structure Outcome where
   panicked : Bool := false
 deriving Repr
 
-/-- the `HandleIncomingPacketResult::Forwarded` arm of `TunnelGateway::start_server` -/
+/-- the `HandleIncomingPacketResult::Forwarded` arm of the receive closure of `TunnelGateway::start_server`
+    (gateway.rs, `match inbound_datagram_check(&packet[..], from.ip()) { Ok(view) => .. try_dispatch(view) | Err(e) =>
+    .. create_scmp_error(e, local_addr, (WILDCARD, from.ip()), buf) .. }`): `d` = the decrypted tunnel payload `packet`,
+    `peer` = `from.ip()`, `localIp` = `socket.local_addr().ip()` (fallback `0.0.0.0`).  Not modelled: the observer call,
+    the WireGuard encapsulation of the reply and the batched send.  Tied to the real closure by the generated
+    `GATEWAY_*` facts (`gateway_glue_generated`) and by the harness stream "gateway", which runs the real
+    `start_server` over loop-back UDP with a real WireGuard client and compares the bytes handed to
+    `Dispatcher::try_dispatch` / the decrypted replies with this function. -/
 def gatewayStep (d : Bytes) (peer localIp : Ip) : Outcome :=
   match inboundCheck d peer with
   | .dispatch view => { dispatched := [view] }
